@@ -262,12 +262,31 @@ fn build_app() -> App {
 
 /// One burst of `n` messages of `size` bytes in one sender frame; `Ok(None)` = inconclusive.
 fn loopback_burst(n: usize, size: usize, upstream: bool) -> Result<Option<u64>, String> {
-    loopback_burst_with(n, size, upstream, false)
+    run_burst(n, size, upstream, false)
+}
+
+/// Up to three attempts with growing patience. A connection that cannot be set up in time stays
+/// inconclusive; a connection that is up but delivers nothing more in any of the attempts
+/// (loopback hands written bytes to the reader at once) is a stall.
+fn run_burst(n: usize, size: usize, upstream: bool, early: bool) -> Result<Option<u64>, String> {
+    let mut stalls = Vec::new();
+    for attempt in 0..3usize {
+        match guarded(|| loopback_burst_with(n, size, upstream, early, attempt + 1)).unwrap_or_else(|(m, l)| Err(format!("panic: {m} ({l})"))) {
+            Ok(Some(d)) => return Ok(Some(d)),
+            Ok(None) => continue,
+            Err(e) if e.starts_with("STALL") => stalls.push(e),
+            Err(e) => return Err(e),
+        }
+    }
+    if stalls.len() == 3 {
+        return Err(format!("in three attempts with growing patience: {}", stalls.pop().unwrap()));
+    }
+    Ok(None)
 }
 
 /// `early` (server -> client only): the server accepts the connection and sends the whole burst
 /// before the client app runs its first frame with the socket.
-fn loopback_burst_with(n: usize, size: usize, upstream: bool, early: bool) -> Result<Option<u64>, String> {
+fn loopback_burst_with(n: usize, size: usize, upstream: bool, early: bool, patience: usize) -> Result<Option<u64>, String> {
     let mut server = build_app();
     let mut client = build_app();
     let socket = ExampleServer::new(0).map_err(|e| format!("bind: {e}"))?;
@@ -381,7 +400,7 @@ fn loopback_burst_with(n: usize, size: usize, upstream: bool, early: bool) -> Re
         server.update();
     }
     let mut sentinel_seen = false;
-    for _ in 0..600 {
+    for _ in 0..600 * patience {
         let rx = if upstream { &mut server } else { &mut client };
         rx.update();
         all.append(&mut rx.world_mut().resource_mut::<Got>().0);
@@ -428,8 +447,12 @@ fn loopback_burst_with(n: usize, size: usize, upstream: bool, early: bool) -> Re
                 total - all.len()
             ));
         }
-        // arrival timing is not owned: inconclusive, never an alarm
-        return Ok(None);
+        // the connection is up on both sides, yet neither the sentinel nor the rest arrived
+        return Err(format!(
+            "STALL: {} of {total} messages and the sentinel sent after them did not arrive within {} receiver frames although the connection is up on both sides",
+            total - all.len(),
+            600 * patience
+        ));
     }
     let mut per: BTreeMap<u8, Vec<(u32, Vec<u8>)>> = BTreeMap::new();
     for (ch, s, p) in all {
@@ -455,6 +478,83 @@ fn loopback_burst_with(n: usize, size: usize, upstream: bool, early: bool) -> Re
     Ok(Some((n * 1000 + size) as u64 * 2 + early as u64))
 }
 
+/// Two clients: a message that the transport cannot write (too large to be framed) is queued
+/// for client A, followed in the same server frame by `n` ordinary messages for client B.
+fn failed_write_next_to_healthy_client(n: usize) -> Result<Option<u64>, String> {
+    let mut server = build_app();
+    let socket = ExampleServer::new(0).map_err(|e| format!("bind: {e}"))?;
+    let port = socket.local_addr().map_err(|e| e.to_string())?.port();
+    server.insert_resource(socket);
+    let mut clients: Vec<App> = Vec::new();
+    let mut conns: Vec<Entity> = Vec::new();
+    for k in 0..2 {
+        let mut c = build_app();
+        c.insert_resource(ExampleClient::new(port).map_err(|e| format!("connect: {e}"))?);
+        let mut up = false;
+        for _ in 0..300 {
+            server.update();
+            c.update();
+            for other in clients.iter_mut() {
+                other.update();
+            }
+            let now: Vec<Entity> = {
+                let w = server.world_mut();
+                let mut q = w.query_filtered::<Entity, With<ConnectedClient>>();
+                q.iter(w).collect()
+            };
+            if now.len() == k + 1 && c.world().resource::<RepliconClient>().is_connected() {
+                conns.push(*now.iter().find(|e| !conns.contains(e)).unwrap());
+                up = true;
+                break;
+            }
+            std::thread::sleep(Duration::from_millis(1));
+        }
+        if !up {
+            return Ok(None);
+        }
+        clients.push(c);
+    }
+    let (a, b) = (conns[0], conns[1]);
+    server.world_mut().send_event(ToClients { mode: SendMode::Direct(a), event: Down0(0, vec![7u8; 70_000]) });
+    let mut want = Vec::new();
+    for i in 1..=n as u32 {
+        let p = payload(i, 16);
+        server.world_mut().send_event(ToClients { mode: SendMode::Direct(b), event: Down0(i, p.clone()) });
+        want.push((i, p));
+    }
+    server.update();
+    const SENTINEL: u32 = u32::MAX;
+    server.world_mut().send_event(ToClients { mode: SendMode::Direct(b), event: Down0(SENTINEL, Vec::new()) });
+    server.update();
+    let rx = &mut clients[1];
+    let mut all: Vec<(u8, u32, Vec<u8>)> = Vec::new();
+    let mut seen = false;
+    for _ in 0..1200 {
+        rx.update();
+        all.append(&mut rx.world_mut().resource_mut::<Got>().0);
+        if all.iter().any(|m| m.1 == SENTINEL) {
+            seen = true;
+            rx.update();
+            all.append(&mut rx.world_mut().resource_mut::<Got>().0);
+            break;
+        }
+        std::thread::sleep(Duration::from_micros(300));
+    }
+    if !seen {
+        let up = rx.world().resource::<RepliconClient>().is_connected();
+        return Err(format!("STALL: the healthy client (connected: {up}) received {} of {n} messages and no sentinel after the server failed to write to the other client", all.len()));
+    }
+    all.retain(|m| m.1 != SENTINEL);
+    let got: Vec<(u32, Vec<u8>)> = all.into_iter().map(|m| (m.1, m.2)).collect();
+    if got != want {
+        return Err(format!(
+            "the healthy client received {:?} instead of 1..={n} after the server failed to write an oversized message to the other client in the same frame",
+            got.iter().map(|g| g.0).collect::<Vec<_>>()
+        ));
+    }
+    Ok(Some(n as u64))
+}
+
 fn loopback_part(tier: Tier, out: &mut Outcome, bad: &mut Vec<Bad>) {
     let counts: Vec<usize> = if tier.quick() { vec![1, 2, 3, 4, 7, 12, 16] } else { (1..=48).collect() };
     let sizes: Vec<usize> = if tier.quick() { vec![2, 130, 1197, 1200] } else { vec![2, 3, 129, 130, 131, 1196, 1197, 1198, 1199, 1200] };
@@ -464,17 +564,10 @@ fn loopback_part(tier: Tier, out: &mut Outcome, bad: &mut Vec<Bad>) {
     for &n in &counts {
         for &size in &sizes {
             for upstream in [false, true] {
-                let mut result = None;
-                for _attempt in 0..3 {
-                    let r = guarded(|| loopback_burst(n, size, upstream)).unwrap_or_else(|(m, l)| Err(format!("panic: {m} ({l})")));
-                    match r {
-                        Ok(None) => continue,
-                        other => {
-                            result = Some(other);
-                            break;
-                        }
-                    }
-                }
+                let result = match run_burst(n, size, upstream, false) {
+                    Ok(None) => None,
+                    other => Some(other),
+                };
                 runs += 1;
                 match result {
                     None => inconclusive += 1,
@@ -483,7 +576,7 @@ fn loopback_part(tier: Tier, out: &mut Outcome, bad: &mut Vec<Bad>) {
                     }
                     Some(Ok(None)) => unreachable!(),
                     Some(Err(e)) => bad.push(Bad {
-                        oracle: if e.starts_with("bind") || e.starts_with("connect") { "socket" } else { "loopback-order" },
+                        oracle: if e.starts_with("bind") || e.starts_with("connect") { "socket" } else if e.contains("STALL") { "loopback-stalled" } else { "loopback-order" },
                         case: format!("{n} messages of {size} bytes, {}", if upstream { "client -> server" } else { "server -> client" }),
                         detail: e,
                         replay: json!({"kind": "loopback", "n": n, "size": size, "upstream": upstream}),
@@ -495,17 +588,10 @@ fn loopback_part(tier: Tier, out: &mut Outcome, bad: &mut Vec<Bad>) {
     // the server sends before the client app's first frame with the socket
     for &n in &counts {
         for &size in &[2usize, 130] {
-            let mut result = None;
-            for _attempt in 0..3 {
-                let r = guarded(|| loopback_burst_with(n, size, false, true)).unwrap_or_else(|(m, l)| Err(format!("panic: {m} ({l})")));
-                match r {
-                    Ok(None) => continue,
-                    other => {
-                        result = Some(other);
-                        break;
-                    }
-                }
-            }
+            let result = match run_burst(n, size, false, true) {
+                Ok(None) => None,
+                other => Some(other),
+            };
             runs += 1;
             match result {
                 None => inconclusive += 1,
@@ -520,6 +606,39 @@ fn loopback_part(tier: Tier, out: &mut Outcome, bad: &mut Vec<Bad>) {
                     replay: json!({"kind": "loopback", "n": n, "size": size, "upstream": false, "early": true}),
                 }),
             }
+        }
+    }
+    // a failed write to one client next to messages for a healthy one
+    for n in [1usize, 3, 12] {
+        let mut stalls = 0;
+        let mut result = None;
+        for _ in 0..3 {
+            match guarded(|| failed_write_next_to_healthy_client(n)).unwrap_or_else(|(m, l)| Err(format!("panic: {m} ({l})"))) {
+                Ok(None) => continue,
+                Err(e) if e.starts_with("STALL") => {
+                    stalls += 1;
+                    result = Some(Err(e));
+                }
+                other => {
+                    result = Some(other);
+                    break;
+                }
+            }
+        }
+        runs += 1;
+        match result {
+            None => inconclusive += 1,
+            Some(Ok(Some(d))) => {
+                outcomes.insert(1_000_000 + d);
+            }
+            Some(Ok(None)) => unreachable!(),
+            Some(Err(e)) if e.starts_with("STALL") && stalls < 3 => inconclusive += 1,
+            Some(Err(e)) => bad.push(Bad {
+                oracle: if e.starts_with("bind") || e.starts_with("connect") { "socket" } else { "loopback-failed-write" },
+                case: format!("oversized message for client A, then {n} messages for client B in one server frame"),
+                detail: e,
+                replay: json!({"kind": "loopback", "n": n, "size": 0, "upstream": false, "failed_write": true}),
+            }),
         }
     }
     out.evaluations += runs;
@@ -587,20 +706,23 @@ pub fn replay(doc: &serde_json::Value) -> i32 {
         run_history(&ops).map(|_| ())
     } else {
         let (n, size, up) = (doc["n"].as_u64().unwrap() as usize, doc["size"].as_u64().unwrap() as usize, doc["upstream"].as_bool().unwrap());
+        if doc["failed_write"].as_bool().unwrap_or(false) {
+            let n = doc["n"].as_u64().unwrap() as usize;
+            println!("failed write next to {n} messages for a healthy client");
+            return match failed_write_next_to_healthy_client(n) {
+                Ok(_) => {
+                    println!("replay passes: no violation");
+                    0
+                }
+                Err(e) => {
+                    println!("VIOLATION property=C17 replay=<file> oracle=loopback-failed-write :: {e}");
+                    1
+                }
+            };
+        }
         let early = doc["early"].as_bool().unwrap_or(false);
         println!("loopback burst: {n} messages of {size} bytes, upstream {up}, early {early}");
-        let mut r = Ok(());
-        for _ in 0..3 {
-            match loopback_burst_with(n, size, up, early) {
-                Ok(None) => continue,
-                Ok(Some(_)) => break,
-                Err(e) => {
-                    r = Err(e);
-                    break;
-                }
-            }
-        }
-        r
+        run_burst(n, size, up, early).map(|_| ())
     };
     match r {
         Ok(()) => {
